@@ -213,12 +213,61 @@ def enum_world(seed):
             "a quarter of the updates interrupted at the final rename (and later retried by chance); file content compared after every step", "cases": cases, "failures": fails}
 
 
+def enum_pmerge_requests(seed):
+    """a request as pmerge makes it: the atom goes through slotatom_if_slotted (with the repository the package was matched in) and then through
+    update_worldset on the real WorldFile.  For every slot shape, with the package present in the repository in that slot: adding records exactly
+    the name (no slot, or slot 0) or name:slot, removing takes exactly that entry out again, the other entries stay"""
+    import os
+    import shutil
+    import tempfile
+    from pkgcore.ebuild.atom import atom
+    from pkgcore.pkgsets.filelist import WorldFile
+    from pkgcore.scripts import pmerge
+    from pkgcore.test.misc import FakePkg, FakeRepo
+    scratch = tempfile.mkdtemp(prefix="c30p.", dir=os.environ.get("PYVC_SCRATCH", "/var/tmp"))
+    slots = [None, "0", "1", "10", "3.11", "0.5", "01", "0.1", "2_x", "3.0-gtk3", "3.12"]
+    others = ["app-misc/bar", "dev-lang/python:3.11", "dev-util/other:0.5"]
+    cases, fails = 0, []
+    try:
+        for i, s_ in enumerate(slots):
+            for extra_slot in (False, True):
+                cases += 1
+                pkgs = [FakePkg("dev-util/foo-1", slot=s_ or "0")] + ([FakePkg("dev-util/foo-2", slot="7")] if extra_slot else [])
+                repo = FakeRepo(pkgs=pkgs)
+                a = atom("dev-util/foo" + (f":{s_}" if s_ else ""))
+                want = "dev-util/foo" if s_ in (None, "0") else f"dev-util/foo:{s_}"
+                path = os.path.join(scratch, f"world{i}{int(extra_slot)}")
+                open(path, "w").write("\n".join(others))
+                model = {"atom": str(a), "repository": [f"{p.cpvstr}:{p.slot}" for p in pkgs], "world_before": others}
+                try:
+                    ws = WorldFile(path, gid=os.getgid())
+                    pmerge.update_worldset(ws, pmerge.slotatom_if_slotted(repo, a))
+                    got = sorted(x for x in open(path).read().split("\n") if x)
+                    if got != sorted(others + [want]):
+                        if len(fails) < 4:
+                            fails.append({"model": model, "detail": f"adding {a} (repository {model['repository']}) to the world file {others}: the file holds {got}, expected {sorted(others + [want])}"})
+                        continue
+                    ws = WorldFile(path, gid=os.getgid())
+                    pmerge.update_worldset(ws, pmerge.slotatom_if_slotted(repo, a), remove=True)
+                    got = sorted(x for x in open(path).read().split("\n") if x)
+                    if got != sorted(others) and len(fails) < 4:
+                        fails.append({"model": model, "detail": f"removing {a} again: the file holds {got}, expected {sorted(others)}"})
+                except Exception as e:
+                    if len(fails) < 4:
+                        fails.append({"model": model, "detail": f"recording {a} (repository {model['repository']}) as pmerge does raised {type(e).__name__}: {e}"})
+    finally:
+        shutil.rmtree(scratch, ignore_errors=True)
+    return {"name": "C30.pmerge_requests.bounded_enumeration", "bound": f"{len(slots)} slot shapes (none, 0, slots beginning with 0, multi-character, dotted) x the package alone / next to another slot in the repository: "
+            "slotatom_if_slotted + update_worldset add, then remove, on a world file with 3 other entries", "cases": cases, "failures": fails}
+
+
 def tasks():
     return [
         Task("C30.WorldFile._modify", t_modify, [(FILE, "WorldFile._modify"), (FILE, "FileList.add"), (FILE, "FileList.remove")],
              fallback={"unroll": 3}),
         Task("C30.FileList.flush", t_flush, [(FILE, "FileList.flush")]),
         Task("C30.update_worldset", t_update_worldset, [("src/pkgcore/scripts/pmerge.py", "update_worldset")], enumerate=enum_world),
+        Task("C30.pmerge_requests", None, [("src/pkgcore/scripts/pmerge.py", "slotatom_if_slotted"), ("src/pkgcore/scripts/pmerge.py", "update_worldset")], enumerate=enum_pmerge_requests),
     ]
 
 
